@@ -8,7 +8,7 @@ constant n_batches), so each (n_batches, mode) shape is decided for every task c
 """
 import os
 from symx import core, stack, env, symnp
-from symx.framework import new_result, VCSink, fill_explorer
+from symx.framework import new_result, VCSink, fill_explorer, add_witness
 from symx.core import z3
 
 PROPERTY = "C16"
@@ -101,6 +101,7 @@ def run_shape(shape, tier):
                 continue
             n, lo, tasks = path.result
             _spec_tasks(sink, path, tasks, lo, n, nb, mode, (A1, A2), "bt.")
+            add_witness(res, path, lambda m: _model(m, n, lo, nb, mode), site="batch_tasks", limit=1)
             r, _, _ = path.check(core.SB(z3.BoolVal(False)))
             twin = twin or r == "sat"
         res["twin_ok"] = twin
